@@ -399,3 +399,121 @@ def run(ctx) -> None:
               "block values override the copied kwargs under zip(keys, args)",
               f"the rebuilt transform pairs `{norm_text(z)}` / merges {[norm_text(d)[:60] for d in dicts]}: distribution "
               "slices are not assigned to their own names over the copied kwargs", key_detail="override")
+
+
+# ------------------------------------------------------------------------------------------------
+# R-BASETILT: per-axis independence of BeamTilt2D.metadata
+class _Unsupported(Exception):
+    pass
+
+
+def _eval_tilt_metadata(f: FuncInfo, dist: dict[str, bool]):
+    """Evaluate BeamTilt2D.metadata for one case (which of tilt_x / tilt_y is a distribution).
+    Returns {key: 'zero' | 'tilt_x' | 'tilt_y' | other text}."""
+    env: dict[str, object] = {}
+
+    def val(e):
+        if isinstance(e, ast.Constant):
+            return "zero" if e.value in (0, 0.0) else repr(e.value)
+        d = dotted(e)
+        if d in ("self.tilt_x", "self._tilt_x"):
+            return "tilt_x"
+        if d in ("self.tilt_y", "self._tilt_y"):
+            return "tilt_y"
+        if isinstance(e, ast.Name) and e.id in env:
+            return env[e.id]
+        if isinstance(e, (ast.Tuple, ast.List)):
+            return tuple(val(x) for x in e.elts)
+        if isinstance(e, ast.Dict):
+            return {k.value: val(v) for k, v in zip(e.keys, e.values) if isinstance(k, ast.Constant)}
+        if isinstance(e, ast.IfExp):
+            return val(e.body) if test(e.test) else val(e.orelse)
+        if isinstance(e, ast.Subscript) and isinstance(e.slice, ast.Constant):
+            v = val(e.value)
+            if isinstance(v, (tuple, dict)):
+                return v[e.slice.value]
+        raise _Unsupported(norm_text(e))
+
+    def is_dist(v) -> bool:
+        if v == "tilt_x":
+            return dist["x"]
+        if v == "tilt_y":
+            return dist["y"]
+        if v == "zero":
+            return False
+        raise _Unsupported(f"isinstance of {v}")
+
+    def test(t) -> bool:
+        if isinstance(t, ast.Call) and call_name(t) == "isinstance" and len(t.args) == 2:
+            return is_dist(val(t.args[0]))
+        if isinstance(t, ast.UnaryOp) and isinstance(t.op, ast.Not):
+            return not test(t.operand)
+        if isinstance(t, ast.BoolOp):
+            vals = [test(v) for v in t.values]
+            return all(vals) if isinstance(t.op, ast.And) else any(vals)
+        if isinstance(t, ast.Call) and call_name(t) in ("any", "all") and len(t.args) == 1 and isinstance(
+                t.args[0], (ast.GeneratorExp, ast.ListComp)):
+            g = t.args[0]
+            it = val(g.generators[0].iter)
+            res = []
+            for item in it:
+                env[g.generators[0].target.id] = item
+                res.append(test(g.elt))
+            return any(res) if call_name(t) == "any" else all(res)
+        if isinstance(t, ast.Call) and call_name(t) == "hasattr" and len(t.args) == 2 and isinstance(
+                t.args[1], ast.Constant) and t.args[1].value in ("values", "weights"):
+            return is_dist(val(t.args[0]))
+        raise _Unsupported(norm_text(t))
+
+    def run(body):
+        for st in body:
+            if isinstance(st, ast.Assign) and len(st.targets) == 1:
+                tg = st.targets[0]
+                if isinstance(tg, ast.Name):
+                    env[tg.id] = val(st.value)
+                elif isinstance(tg, ast.Subscript) and isinstance(tg.value, ast.Name) and isinstance(
+                        tg.slice, ast.Constant):
+                    d = env.setdefault(tg.value.id, {})
+                    d[tg.slice.value] = val(st.value)
+                else:
+                    raise _Unsupported(norm_text(st))
+            elif isinstance(st, ast.AnnAssign) and isinstance(st.target, ast.Name) and st.value is not None:
+                env[st.target.id] = val(st.value)
+            elif isinstance(st, ast.If):
+                r = run(st.body) if test(st.test) else run(st.orelse)
+                if r is not None:
+                    return r
+            elif isinstance(st, ast.Return):
+                return val(st.value)
+            elif isinstance(st, ast.Expr) and isinstance(st.value, ast.Constant):
+                continue
+            else:
+                raise _Unsupported(norm_text(st)[:60])
+        return None
+
+    return run(f.body)
+
+
+_prev_run = run
+
+
+def run(ctx) -> None:  # noqa: F811
+    _prev_run(ctx)
+    ctx.rule("R-BASETILT", "BeamTilt2D.metadata reports, independently for each axis, base_tilt_<a> = 0 when tilt_<a> is "
+             "a distribution (the ensemble axis carries it) and the scalar tilt_<a> otherwise — evaluated for all four "
+             "combinations; a scalar component must survive when only the other component is a distribution")
+    k = ctx.repo.cls("abtem.tilt", "BeamTilt2D")
+    f = k.find_method("metadata")
+    ctx.require(f is not None, "BeamTilt2D.metadata not found")
+    for dx in (False, True):
+        for dy in (False, True):
+            try:
+                got = _eval_tilt_metadata(f, {"x": dx, "y": dy})
+            except _Unsupported as e:
+                raise AnalysisError(f"{f.qualname}: construct not modelled: {e}")
+            want = {"base_tilt_x": "zero" if dx else "tilt_x", "base_tilt_y": "zero" if dy else "tilt_y"}
+            case = f"tilt_x {'distribution' if dx else 'scalar'}, tilt_y {'distribution' if dy else 'scalar'}"
+            ctx.check(isinstance(got, dict) and {a: got.get(a) for a in want} == want, "R-BASETILT",
+                      f"{f.qualname}[{case}]", f.where, f"metadata = {got}",
+                      f"for {case} the metadata is {got}; expected {want}: the scalar tilt component is lost (member j "
+                      "is then simulated with the wrong fixed tilt)", key_detail=case)
